@@ -4,6 +4,7 @@ package main
 // interval tracking (for eliding wrap-arounds) and DAG-aware rendering.
 
 import (
+	"crypto/sha256"
 	"fmt"
 	"math/big"
 	"strconv"
@@ -672,14 +673,61 @@ func smtStr(s string) string {
 
 // Renderer renders terms, introducing define-funs for large shared nodes and declaring
 // variables on first use. Emitted commands are appended through emit.
+// thash is a structural hash of a term (collisions are negligible: 128 bits of SHA-256).
+type thash [16]byte
+
+// hasher memoises structural hashes per term pointer (one per solver session, so terms are
+// never mutated and no synchronisation is needed).
+type hasher struct{ memo map[*Term]thash }
+
+func newHasher() *hasher { return &hasher{memo: map[*Term]thash{}} }
+
+func (h *hasher) of(t *Term) thash {
+	if v, ok := h.memo[t]; ok {
+		return v
+	}
+	hs := sha256.New()
+	hs.Write([]byte(t.op))
+	hs.Write([]byte{0, byte(t.sort)})
+	switch t.op {
+	case "c":
+		switch t.sort {
+		case SInt:
+			hs.Write([]byte(t.iv.String()))
+		case SBool:
+			if t.bv {
+				hs.Write([]byte{1})
+			} else {
+				hs.Write([]byte{2})
+			}
+		default:
+			hs.Write([]byte(t.sv))
+		}
+	case "v":
+		hs.Write([]byte(t.name))
+	default:
+		hs.Write([]byte(t.name))
+		hs.Write([]byte{0})
+		for _, a := range t.args {
+			c := h.of(a)
+			hs.Write(c[:])
+		}
+	}
+	var out thash
+	copy(out[:], hs.Sum(nil))
+	h.memo[t] = out
+	return out
+}
+
 type Renderer struct {
 	emit     func(cmd string)
 	declared map[string]bool
-	defs     map[*Term]string
+	defs     map[thash]string
 	ndef     int
-	memo     map[*Term]string
+	memo     map[thash]string
 	sawNL    bool
 	nls      []nlRec
+	h        *hasher
 }
 
 type nlRec struct{ m, x, y string }
@@ -737,17 +785,21 @@ func (r *Renderer) nlBoundLemmas(m, x string, y *Term) {
 
 
 func NewRenderer(emit func(string)) *Renderer {
-	return &Renderer{emit: emit, declared: map[string]bool{}, defs: map[*Term]string{}, memo: map[*Term]string{}}
+	return &Renderer{emit: emit, declared: map[string]bool{}, defs: map[thash]string{}, memo: map[thash]string{}, h: newHasher()}
 }
 
 const defThreshold = 24
 
 func (r *Renderer) Render(t *Term) string {
-	if s, ok := r.defs[t]; ok {
-		return s
-	}
-	if s, ok := r.memo[t]; ok {
-		return s
+	var th thash
+	if t.op != "c" && t.op != "v" {
+		th = r.h.of(t)
+		if s, ok := r.defs[th]; ok {
+			return s
+		}
+		if s, ok := r.memo[th]; ok {
+			return s
+		}
 	}
 	var s string
 	switch t.op {
@@ -804,7 +856,7 @@ func (r *Renderer) Render(t *Term) string {
 			r.ndef++
 			name := fmt.Sprintf("d!%d", r.ndef)
 			r.emit(fmt.Sprintf("(define-fun %s () %s %s)", name, t.sort, s))
-			r.defs[t] = name
+			r.defs[th] = name
 			x, y := parts[1], parts[2]
 			r.emit(fmt.Sprintf("(assert (=> (and (>= %s 0) (> %s 0)) (and (>= %s 0) (<= %s %s))))", x, y, name, name, x))
 			r.emit(fmt.Sprintf("(assert (=> (and (>= %s 0) (> %s %s)) (= %s 0)))", x, y, x, name))
@@ -815,7 +867,7 @@ func (r *Renderer) Render(t *Term) string {
 			r.ndef++
 			name := fmt.Sprintf("d!%d", r.ndef)
 			r.emit(fmt.Sprintf("(define-fun %s () %s %s)", name, t.sort, s))
-			r.defs[t] = name
+			r.defs[th] = name
 			if op == "nlmul" {
 				r.nlLemmas(name, parts[1], parts[2])
 				r.nlBoundLemmas(name, parts[1], t.args[1])
@@ -824,8 +876,8 @@ func (r *Renderer) Render(t *Term) string {
 			return name
 		}
 	}
-	if t.size > 4 {
-		r.memo[t] = s
+	if t.size > 4 && t.op != "c" && t.op != "v" {
+		r.memo[th] = s
 	}
 	return s
 }
